@@ -256,6 +256,22 @@ def scenario_body(item, ctx, obs):
         call("load(leaf)", lambda: H.load(U("leaf.xml")))
         call("load(mid)", lambda: H.load(U("mid.xml")))
         call("load(leaf)#2", lambda: H.load(U("leaf.xml")))
+    elif sc == "three-deferred":
+        # three loaders at once, each needing what the next one loads
+        call("deferred_load(top)", lambda: H.deferred_load(U("top.xml")))
+        call("deferred_load(mid)", lambda: ctx.term.deferred_load(U("mid.xml")))
+        call("deferred_load(leaf)", lambda: ctx.term.deferred_load(U("leaf.xml")))
+        call("load(leaf)", lambda: ctx.term.load(U("leaf.xml")))
+        call("load(top)", lambda: H.load(U("top.xml")))
+        call("load(mid)", lambda: ctx.term.load(U("mid.xml")))
+        call("load(leaf)#2", lambda: ctx.term.load(U("leaf.xml")))
+    elif sc == "refresh-included":
+        # refresh of an included resource while the including one is being loaded in the background
+        call("deferred_load(mid)", lambda: H.deferred_load(U("mid.xml")))
+        call("refresh(leaf)", lambda: ctx.term.refresh(U("leaf.xml")))
+        call("load(mid)", lambda: H.load(U("mid.xml")))
+        call("load(leaf)", lambda: ctx.term.load(U("leaf.xml")))
+        call("load(leaf)#2", lambda: ctx.term.load(U("leaf.xml")))
     elif sc == "missing":
         call("deferred_load(nothere)", lambda: H.deferred_load(U("nothere.xml")))
         call("load(nothere)", lambda: H.load(U("nothere.xml")))
@@ -321,6 +337,11 @@ EXPECT = {
                  "load(leaf)#2": ("same", "load(leaf)")},
     "two-deferred": {"deferred_load(mid)": ("void",), "deferred_load(leaf)": ("void",), "load(leaf)": ("doc", "leaf.xml"),
                      "load(mid)": ("doc", "mid.xml"), "load(leaf)#2": ("same", "load(leaf)")},
+    "three-deferred": {"deferred_load(top)": ("void",), "deferred_load(mid)": ("void",), "deferred_load(leaf)": ("void",),
+                       "load(leaf)": ("doc", "leaf.xml"), "load(top)": ("doc", "top.xml"), "load(mid)": ("doc", "mid.xml"),
+                       "load(leaf)#2": ("same", "load(leaf)")},
+    "refresh-included": {"deferred_load(mid)": ("void",), "refresh(leaf)": ("void",), "load(mid)": ("doc", "mid.xml"),
+                         "load(leaf)": ("doc", "leaf.xml"), "load(leaf)#2": ("same", "load(leaf)")},
     "missing": {"deferred_load(nothere)": ("void",), "load(nothere)": ("none",), "load(nothere)#2": ("none",)},
     "missing-included": {"deferred_load(midmiss)": ("void",), "load(midmiss)": ("none-or-doc",),
                          "load(midmiss)#2": ("none-or-doc",)},
@@ -456,9 +477,9 @@ def judge(item, s, refs):
 
 # --------------------------------------------------------------------------- exploration
 
-SCENARIOS_TERM = ["same-url", "chain", "two-deferred", "diamond", "missing", "missing-included", "unparsable",
+SCENARIOS_TERM = ["same-url", "chain", "two-deferred", "three-deferred", "refresh-included", "diamond", "missing", "missing-included", "unparsable",
                   "unparsable-included", "undecodable", "undecodable-included", "object-api", "refresh"]
-SCENARIOS_TEMPL = ["same-url", "chain", "two-deferred", "missing", "missing-included", "unparsable",
+SCENARIOS_TEMPL = ["same-url", "chain", "two-deferred", "three-deferred", "missing", "missing-included", "unparsable",
                    "unparsable-included", "undecodable", "undecodable-included", "clone-section"]
 
 
@@ -467,6 +488,8 @@ def items_for(tier):
     for handler, scs in (("terminology", SCENARIOS_TERM), ("templates", SCENARIOS_TEMPL)):
         for sc in scs:
             for cache in ("empty", "warm", "stale-changed"):
+                if sc == "three-deferred" and cache == "stale-changed" and tier == "quick":
+                    continue
                 out.append({"scenario": sc, "handler": handler, "cache": cache})
             if sc in ("same-url", "refresh"):
                 out.append({"scenario": sc, "handler": handler, "cache": "stale-removed", "resdir": "gone"})
@@ -623,7 +646,8 @@ def check(tier):
         "sibling order inside a resolved document is not judged here (C12)",
     ])
     items = items_for(tier)
-    run.bounds = {"preemption_bound_completed": bound, "scenario_variants": len(items),
+    run.bounds = {"preemption_bound_completed": bound, "preemption_bound_three_deferred": bound - 1,
+                  "scenario_variants": len(items),
                   "explored_without_preemption_bound": list(UNBOUNDED)}
     per_item = collections.OrderedDict()
 
@@ -645,7 +669,8 @@ def check(tier):
         run.add_failures(res["failures"])
 
     roots = []
-    bound_of = lambda it: 99 if it["scenario"] in UNBOUNDED else bound
+    # the three-loader scenario has four threads and 74 points: one preemption less than the others
+    bound_of = lambda it: 99 if it["scenario"] in UNBOUNDED else (bound - 1 if it["scenario"] == "three-deferred" else bound)
     for res in par.pmap("checks.c18", "explore_task", [(it, None, bound_of(it), cap) for it in items], sync_threads=False):
         absorb(res)
         for alt in res["alternatives"]:
